@@ -45,6 +45,12 @@ def reduce_targets():
             calls=[(r'^min_element\|', 'nv_min_element({0}, {1})'), (r'^operator\*\|', '(*nv_iter_deref({0}, nv_size))')],
             members=[(r'^begin\|', '((uint64_t)0)'), (r'^end\|', '{self}->size')], hooks=[stateless_lambda_hook], **common)
     out += [Target('min_reduce', [mr, cmp_()], H), Target('min_reduce_cmp', [cmp_()], H)]
+    git = r'__normal_iterator<nano::gboost::accumulator_t \*|^std::vector<nano::gboost::accumulator_t>::iterator$'
+    clr = Fn('gboost_clear_all', 'src/gboost/function.cpp', 'clear', flt='(anonymous namespace)::clear',
+             types=[(git, 'uint64_t'), (r'^nano::gboost::accumulators_t$', 'struct nv_accs')] + RTYPES, uf_float=False,
+             calls=[(r'^operator!=\|', '({0} != {1})'), (r'^operator\+\+\|', '(++{0})'), (r'^operator\*\|', '(*nv_acc_iter({0}))')],
+             members=[(r'^begin\|', '((uint64_t)0)'), (r'^end\|', '{self}->size'), (r'^clear\|nano::gboost::accumulator_t', 'nv_acc_clear')])
+    out.append(Target('gboost_clear_all', [clr], H))
     return out
 
 
@@ -106,7 +112,67 @@ def iter_targets():
 
 def build(tier):
     targets = reduce_targets() + acc_targets() + iter_targets()
+    import reg_smt
+    bounded, fns = [], []
+    for n in (1, 2, 3):
+        v, info = reg_smt.vcs_for(n)
+        for x in v:
+            x.bound = f'|W| = {n}'
+        bounded += v
+        fns.append(info)
     return {
-        'targets': targets, 'vcs': [],
-        'decided': [], 'not_decided': [], 'assumptions': [], 'trusted': [],
+        'targets': targets, 'vcs': [], 'bounded': bounded, 'functions': fns,
+        'decided': [
+            'sum_reduce<linear::accumulator_t>, sum_reduce<gboost::accumulator_t> for every number of accumulators k >= 1: accumulator 0 absorbs accumulators 1..k-1 exactly once each (in order, never itself, no other accumulator is a target), is then normalised exactly once by `samples`, and is the one returned',
+            'min_reduce (instantiation of src/wlearner/stump.cpp): returns an element of the vector whose m_score is minimal (at positions 0 and ghost g), with the real comparator lambda = strict < on m_score',
+            'linear::accumulator_t / gboost::accumulator_t clear, operator+=, operator/=: every partial-sum field (m_vm1, m_gb1 and m_gW1 for linear) is zeroed / added from the SAME field of `other` / divided by (double)samples, exactly once; the buffers m_outputs/m_vgrads/m_values are untouched (frame); *this is returned',
+            'gboost clear(accumulators): every per-thread accumulator is cleared exactly once',
+            'flatten_iterator_t::loop (both callbacks), targets_iterator_t::loop: map is called once with (samples().size(), batch()); base_dataset_iterator_t::map forwards (elements, chunksize) in this order to thread_pool().map; each task calls the callback exactly once with range [begin, end), the same tnum and the inputs / targets of exactly that (tnum, range); make_range / tensor_range_t(begin, end) store (begin, end).  With C17 (pool_t::map tiles [0, elements), tnum < pool size): every sample reaches the callback in exactly one range',
+            'BOUNDED (|W| = 1, 2, 3; entries, l1, l2, loss symbolic reals): linear::function_t::do_vgrad returns loss + l1*mean|W| + (l2/2)*mean(W^2) and, when a gradient is requested, writes gW1 + l1*sign(W)/|W| + l2*W/|W| into the weights part of gx'],
+        'not_decided': [
+            'the loss values and their gradients (mean_i loss(t_i, W x_i + b), gboost bias/scale/grads objectives): numeric, Eigen kernels',
+            'independence of the result from thread count / batch size beyond the combinatorial skeleton: floating-point re-association (1e-9 clause), and ANY effect of concurrent execution (races on per-thread buffers, accumulator index tnum used by two tasks at once)',
+            'the bodies of the per-range lambdas of linear::function_t::do_vgrad and gboost::*_function_t (Eigen expressions): accumulator index == tnum, accumulation of values and gradients; the order clear -> loop -> reduce inside do_vgrad is visible in the extracted text but only the regularisation part is under contract',
+            'cached vs uncached inputs/targets (flatten(tnum, range) / targets(tnum, range) bodies), feature scaling, missing values',
+            'regularisation identities for |W| > 3 (the proof is per array size; 1..3 are checked), IEEE rounding (double treated as real)',
+            'select_iterator_t::loop (feature-wise iteration) and cache_flatten / cache_targets'],
+        'assumptions': [
+            'accumulators.size() >= 1 when sum_reduce / min_reduce are called: the vectors are sized with concurrency() == pool size >= 1 (C17 constructor postcondition)',
+            'batch() >= 1: linear::batch and gboost::batch are registered with domain [10, 10000] (src/linear.cpp:54, src/gboost/model.cpp:202); m_batch defaults to 100; targets_iterator_t::batch(v) itself does not validate v',
+            'l1reg, l2reg >= 0 (the property\'s domain [0, 1e6])',
+            'tensor operations zero() / array() = 0 / += / /= act coefficient-wise on the whole tensor (Eigen / tensor_t assumed contract); Eigen abs/square/sign/mean/scalar*array/array/scalar interpreted by their definitions on real entries; std::sqrt(v) is a non-negative s with s*s == v; double treated as Real in the regularisation VCs',
+            'std::vector::operator[] / range-for / std::min_element(first, last, comp): returns an iterator to an element such that no element compares less (stated at positions 0 and g)',
+            'scalar double + and / are uninterpreted in the accumulator contracts (congruence only): the postconditions hold for every interpretation, IEEE included',
+            'sum_reduce inside do_vgrad is represented by a symbolic reduced accumulator in the regularisation VCs (its protocol is the subject of the sum_reduce targets)'],
+        'trusted': [],
     }
+
+
+def replay(rp):
+    """sum_reduce / min_reduce counterexamples: the real templates of include/nano/core/reduce.h on probe accumulators that
+    record what happens to them (k = 1..9 and the counterexample's vector size when small); other targets: verifier output only"""
+    import re
+    import replaylib
+    out = {'reproduced': False, 'runs': []}
+    if not re.match(r'(sum_reduce|min_reduce)', rp['target']):
+        out['note'] = 'no native driver for this target: the replay file carries the verifier output only'
+        return out
+    exe = replaylib.build_header_only('replay/C09_replay.cpp', 'C09_replay')
+    ks = list(range(1, 10))
+    for fo in rp['failed_obligations']:
+        ce = fo.get('counterexample') or {}
+        for key, v in ce.items():
+            if key.endswith('size') and re.fullmatch(r'\d+(ul|UL)?', str(v)):
+                k = int(re.sub(r'\D', '', str(v)))
+                if 1 <= k <= 5000 and k not in ks:
+                    ks.append(k)
+    for k in ks[:14]:
+        try:
+            rc, so, se = replaylib.run_driver(exe, [k, 17])
+        except Exception as e:
+            out['runs'].append({'k': k, 'error': repr(e)})
+            continue
+        out['runs'].append({'k': k, 'exit': rc, 'output': so.strip()})
+        if rc == 1:
+            out['reproduced'] = True
+    return out
